@@ -3,7 +3,7 @@
    Seq/SeqEnum_proofs.v). The theorems are about the specification Seq/SeqLib.v: they say that
    the one-liners the builtins are compared with (correspondence run) are the intended ones. *)
 From Coq Require Import List Bool Arith NArith ZArith Permutation Sorted.
-From NV Require Import Seq.SeqLib Seq.SeqVal Seq.SeqVal_proofs Seq.SeqLib_proofs Seq.SeqSlices_proofs Seq.SeqZip_proofs Seq.SeqStr_proofs Seq.SeqEnum_proofs.
+From NV Require Import Seq.SeqLib Seq.SeqVal Seq.SeqVal_proofs Seq.SeqLib_proofs Seq.SeqSlices_proofs Seq.SeqZip_proofs Seq.SeqStr_proofs Seq.SeqEnum_proofs Seq.SeqMore_proofs Seq.SeqEnumOrder_proofs.
 Import ListNotations.
 
 (* sort (any total preorder): sorted, a permutation of the input, and stable: the elements of
@@ -181,6 +181,89 @@ Theorem C13_enumerators_natural : forall (A B : Type) (f : A -> B) (l : list A),
 Proof. intros A B f l. exact (conj (permutations_map A B f l) (conj (fun k => combinations_map A B f k l) (subsequences_map A B f l))). Qed.
 Print Assumptions C13_enumerators_natural.
 
+(* take / drop with a predicate split the input at the first element failing it *)
+Theorem C13_take_drop_while : forall (A : Type) (p : A -> bool) xs,
+  sl_take_while p xs ++ sl_drop_while p xs = xs /\
+  Forall (fun x => p x = true) (sl_take_while p xs) /\
+  match sl_drop_while p xs with [] => True | y :: _ => p y = false end.
+Proof. exact take_drop_while. Qed.
+Print Assumptions C13_take_drop_while.
+
+(* locate is the index of the element find returns, the first one satisfying the predicate *)
+Theorem C13_locate_find : forall (A : Type) (p : A -> bool) xs,
+  match sl_locate p xs with
+  | Some i => (exists x, nth_error xs i = Some x /\ p x = true /\ sl_find p xs = Some x) /\
+              (forall j y, j < i -> nth_error xs j = Some y -> p y = false)
+  | None => sl_find p xs = None /\ Forall (fun x => p x = false) xs
+  end.
+Proof. exact locate_find. Qed.
+Print Assumptions C13_locate_find.
+
+Theorem C13_count_any_all : forall (A : Type) (p : A -> bool) xs,
+  sl_count p xs + sl_count (fun x => negb (p x)) xs = length xs /\
+  (sl_any p xs = true <-> 0 < sl_count p xs) /\
+  (sl_all p xs = true <-> sl_count p xs = length xs) /\
+  sl_any p xs = negb (sl_all (fun x => negb (p x)) xs).
+Proof. exact count_any_all. Qed.
+Print Assumptions C13_count_any_all.
+
+Theorem C13_enumerate_spec : forall (A : Type) (xs : list A),
+  length (sl_enumerate xs) = length xs /\
+  forall i x, nth_error xs i = Some x -> nth_error (sl_enumerate xs) i = Some (i, x).
+Proof. exact enumerate_spec. Qed.
+Print Assumptions C13_enumerate_spec.
+
+Theorem C13_pairwise_spec : forall (A B : Type) (f : A -> A -> B) (xs : list A) d e,
+  length (sl_pairwise f xs) = length xs - 1 /\
+  forall i, S i < length xs -> nth i (sl_pairwise f xs) e = f (nth i xs d) (nth (S i) xs d).
+Proof. exact pairwise_spec. Qed.
+Print Assumptions C13_pairwise_spec.
+
+(* min (and max, with the reversed order) over a total preorder: an element of the input that is
+   <= every element, and the first such: every earlier element is strictly worse; empty raises *)
+Theorem C13_extremum_first_best : forall (A : Type) (leb : A -> A -> bool),
+  (forall a b, leb a b = true \/ leb b a = true) ->
+  (forall a b c, leb a b = true -> leb b c = true -> leb a c = true) ->
+  forall xs,
+    match sl_extremum (fun b r => negb (leb r b)) xs with
+    | None => xs = []
+    | Some m => In m xs /\ (forall x, In x xs -> leb m x = true) /\ find (fun x => leb x m) xs = Some m
+    end.
+Proof. exact extremum_first_best. Qed.
+Print Assumptions C13_extremum_first_best.
+
+(* unbounded facts about the enumerators *)
+Theorem C13_permutations_sound : forall (A : Type) (xs : list A),
+  length (sl_permutations xs) = fact (length xs) /\
+  forall p, In p (sl_permutations xs) -> Permutation p xs.
+Proof. exact permutations_sound. Qed.
+Print Assumptions C13_permutations_sound.
+
+Theorem C13_combinations_subseq : forall (A : Type) (xs : list A) k c,
+  In c (sl_combinations xs k) <-> subseq c xs /\ length c = k.
+Proof. exact combinations_subseq. Qed.
+Print Assumptions C13_combinations_subseq.
+
+(* UNBOUNDED exactness of permutations and combinations, for every length: the results are the
+   images of index lists over the positions 0..len-1; those index lists are strictly increasing
+   in lexicographic order (so each occurs once), and they are exactly the rearrangements of the
+   positions / exactly the k-element subsequences of the positions *)
+Theorem C13_enumerators_exact_unbounded : forall (A : Type) (xs : list A) d,
+  let pos := seq 0 (length xs) in
+  let at_ := map (fun i => nth i xs d) in
+  (sl_permutations xs = map at_ (sl_permutations pos) /\
+   StronglySorted lex_lt (sl_permutations pos) /\ NoDup (sl_permutations pos) /\
+   forall p, In p (sl_permutations pos) <-> Permutation p pos) /\
+  (forall k, sl_combinations xs k = map at_ (sl_combinations pos k) /\
+   StronglySorted lex_lt (sl_combinations pos k) /\ NoDup (sl_combinations pos k) /\
+   forall c, In c (sl_combinations pos k) <-> subseq c pos /\ length c = k).
+Proof. exact enumerators_exact_unbounded. Qed.
+Print Assumptions C13_enumerators_exact_unbounded.
+
+Theorem C13_permutations_exact : forall (T : Type) (xs p : list T), In p (sl_permutations xs) <-> Permutation p xs.
+Proof. exact permutations_exact. Qed.
+Print Assumptions C13_permutations_exact.
+
 (* "filter-like functions return the same sequence kind they were given": for the interpreter
    [run] the implementation is compared with, filter / reject / take (predicate) / sort (comparator)
    / reverse / unique on a string, vector, bytes or list give the same kind back (dictionaries and
@@ -204,6 +287,8 @@ Example C13_nonvacuous :
   sl_permutations [7; 8; 9] = map (map (fun i => nth i [7; 8; 9] 0)) (filter nodupb (sl_cartesian_power (seq 0 3) 3)) /\
   sl_combinations [7; 8; 9] 2 = [[7; 8]; [7; 9]; [8; 9]] /\
   nth 5 (sl_subsequences [7; 8; 9]) [] = [7; 9] /\ mask_select (bits 3 5) [7; 8; 9] = [7; 9] /\
+  sl_extremum (fun b r => negb (Nat.leb r b)) [3; 1; 2; 1] = Some 1 /\
+  sl_locate Nat.even [1; 3; 4; 6] = Some 2 /\ sl_take_while Nat.odd [1; 3; 4; 5] = [1; 3] /\
   filter_like (CFilter FEqA) = Some (sl_filter (pred FEqA)) /\
   run (CFilter FEqA) [VStr [97; 98; 97]%N] = Some (VStr [97; 97]%N) /\
   run CUnique [VSeq SVec [VInt 1%Z; VFlt 1%Z; VInt 2%Z]] = Some (VSeq SVec [VInt 1%Z; VInt 2%Z]).
